@@ -136,3 +136,31 @@ package edge
 //@   trusted
 //@   pure
 //@   ensures result != nil
+
+// ---------------------------------------------------------------- buffered.go (C12)
+// Union and join hold a parent's buffered batch while the other parents catch up, and the
+// consumer keeps one BatchBuffer per parent: a batch that was handed out must never be written
+// again. So every batch starts on a slice of its own (an array that did not exist before), the
+// points of the open batch are appended in order, and the batch handed out is exactly those points.
+// Assumed of every sender: the size hint of a begin message is not negative (it is set from a
+// length everywhere in this repository; the UDF boundary rejects negative sizes).
+// (SizeHint itself is declared pure in the udf contracts.)
+//@ func (BeginBatchMessage).SetSizeHint
+//@   trusted
+//@   modifies nothing
+//@ func (*BatchBuffer).BeginBatch
+//@   props C12
+//@   requires r != nil && begin != nil && begin.SizeHint() >= 0 && begin.SizeHint() <= 70368744177664
+//@   modifies r.begin, r.points
+//@   ensures [own-slice-per-batch] len(r.points) == 0 && fresh(r.points)
+//@   ensures r.begin != nil && result == nil
+//@ func (*BatchBuffer).BatchPoint
+//@   props C12
+//@   requires r != nil
+//@   ensures result == nil && len(r.points) == old(len(r.points)) + 1 && r.points[old(len(r.points))] == bp
+//@   ensures forall k int :: 0 <= k && k < old(len(r.points)) ==> r.points[k] == old(r.points[k])
+//@ func (*BatchBuffer).BufferedBatchMessage
+//@   props C12
+//@   requires r != nil && r.begin != nil
+//@   ensures called(NewBufferedBatchMessage) && callarg(NewBufferedBatchMessage, 1) == r.points && callarg(NewBufferedBatchMessage, 2) == end
+//@   ensures r.points == old(r.points) && forall k int :: 0 <= k && k < len(r.points) ==> r.points[k] == old(r.points[k])
